@@ -90,8 +90,9 @@ def rule_r2(ctx: Ctx) -> None:
     init = ctx.func("_dsdl_definition.DSDLDefinition.__init__")
     root = "/w/ns"
     good_num = ["0", "7", "007", "255", "65535"]
-    bad_num = ["", "+1", "-1", " 1", "1 ", "1_0", "0x10", "1e3", "1.0"[:1] + "x", "\u0661", "\u00b2", "a"]
-    bad_num = [b.encode().decode("unicode_escape") for b in bad_num]
+    # (non-ASCII decimal digits - ARABIC-INDIC ONE, FULLWIDTH ONE, DEVANAGARI ONE - which int() and `\d` take; SUPERSCRIPT TWO,
+    # which str.isdigit takes; a trailing line feed, which `$` lets through)
+    bad_num = ["", "+1", "-1", " 1", "1 ", "1_0", "0x10", "1e3", "1x", "\u0661", "\uff11", "\u0967", "1\uff10", "\u00b2", "a", "1\n", "\t1"]
     for pos, label in ((0, "port-ID"), (2, "major version"), (3, "minor version")):
         bad = []
         for txt in good_num + bad_num:
@@ -325,4 +326,7 @@ def run(ctx: Ctx) -> None:
     ctx.attempt(rule_r4, ctx)
     ctx.attempt(rule_r5_ambient, ctx)
     ctx.attempt(rule_r6_designations, ctx)
+    from . import c15text
+
+    c15text.run(ctx)
     ctx.undecided("equivalence of the four root-inference strategies for all argument spellings: file-system and working-directory dependent behaviour with no static abstraction in reach (only the order-independence of the bare-name strategy is decided)")
